@@ -820,9 +820,25 @@ func dispatchFn(c *Ctx) *ir.Func {
 	for _, f := range c.P.MethodsOf("syncer", "Syncer") {
 		found := false
 		ir.Walk(f.Body, false, func(x ast.Node) {
-			if ts, ok := x.(*ast.TypeSwitchStmt); ok && mentionsText(ts.Assign, "ObjectForID") {
-				found = true
+			ts, ok := x.(*ast.TypeSwitchStmt)
+			if !ok {
+				return
 			}
+			if mentionsText(ts.Assign, "ObjectForID") {
+				found = true
+				return
+			}
+			// the object may have been fetched into a variable first (`rpc := gateway.ObjectForID(id)`)
+			ast.Inspect(ts.Assign, func(y ast.Node) bool {
+				if ta, ok := y.(*ast.TypeAssertExpr); ok && ta.Type == nil {
+					if call, ok := ast.Unparen(origin(f, ta.X)).(*ast.CallExpr); ok {
+						if fn := f.Callee(call); fn != nil && fn.Name() == "ObjectForID" && fn.Pkg() != nil && fn.Pkg().Path() == ir.PkgPath("gateway") {
+							found = true
+						}
+					}
+				}
+				return true
+			})
 		})
 		if found {
 			return f
